@@ -2,6 +2,7 @@ package core
 
 import (
 	"fmt"
+	"go/token"
 	"go/types"
 
 	"golang.org/x/tools/go/ssa"
@@ -324,6 +325,70 @@ func (p *Prog) Roles() *Roles {
 						}
 					}
 				})
+			}
+		}
+	}
+	// wherever the code lives: the running flag is the one whose successful CAS is followed by starting the
+	// sender (executor.Exec(sender) / go sender() on the success side of the test)
+	if len(inEnq) == 0 && r.Sender != nil {
+		refersToSender := func(v ssa.Value) bool {
+			switch x := Unwrap(v).(type) {
+			case *ssa.Function:
+				return x == r.Sender
+			case *ssa.MakeClosure:
+				w, ok := x.Fn.(*ssa.Function)
+				if !ok {
+					return false
+				}
+				if w == r.Sender {
+					return true
+				}
+				hit := false
+				if w.Synthetic != "" {
+					AllInstrs(w, func(in ssa.Instruction) {
+						if cc := CallCommon(in); cc != nil && !cc.IsInvoke() && cc.StaticCallee() == r.Sender {
+							hit = true
+						}
+					})
+				}
+				return hit
+			}
+			return false
+		}
+		for _, fn := range p.Funcs {
+			for _, ifi := range Ifs(fn) {
+				cd := CondOf(ifi)
+				in, ok := cd.X.(ssa.Instruction)
+				if !ok || cd.Op != token.ILLEGAL {
+					continue
+				}
+				a := AsAtomic(in)
+				if a == nil || a.Kind != "cas" || a.Field == nil {
+					continue
+				}
+				starts := false
+				for _, b := range fn.Blocks {
+					if !EdgeDominates(ifi.Block(), cd.True, b) {
+						continue
+					}
+					for _, x := range b.Instrs {
+						cc := CallCommon(x)
+						if cc == nil {
+							continue
+						}
+						if refersToSender(cc.Value) {
+							starts = true
+						}
+						for _, arg := range cc.Args {
+							if refersToSender(arg) {
+								starts = true
+							}
+						}
+					}
+				}
+				if starts {
+					inEnq[a.Field] = true
+				}
 			}
 		}
 	}
